@@ -231,7 +231,56 @@ def rule_endian(rep, d, fn):
         else:
             rep.holds("C20.endian", name, "single decision", where=where, detail="every return is a case of the probe switch")
     if len(sw) == 0:
-        # no run-time probe at all in this configuration: any constant answer is a decision that does not come from the byte order
+        # no run-time probe in this configuration: a compile-time answer is acceptable only if it folds to this target's byte order
+        # (x86-64: little endian; std::endian::native == std::endian::little)
+        rets = [r for r in ir.walk_expr(ir.body(fn)) if r.get("kind") == "ReturnStmt" and ir.ekids(r)]
+        XTL = {"big_endian": 0, "little_endian": 1, "mixed": 2}
+        STD = {"little": 1234, "big": 4321, "native": 1234}
+
+        def fold(n):
+            n0 = n
+            while n.get("kind") in ir.WRAPPERS or n.get("kind") in ("ImplicitCastExpr", "CXXStaticCastExpr", "CStyleCastExpr", "CXXFunctionalCastExpr"):
+                kk = ir.ekids(n)
+                if not kk:
+                    return None
+                n = kk[-1]
+            k = n.get("kind")
+            ks = ir.ekids(n)
+            if k == "DeclRefExpr":
+                rd = n.get("referencedDecl") or {}
+                if rd.get("kind") == "EnumConstantDecl":
+                    nm = rd.get("name")
+                    q = ir.qtype(n)
+                    if "std::endian" in q:
+                        return STD.get(nm)
+                    return XTL.get(nm)
+                return None
+            if k in ("IntegerLiteral",):
+                return int(n.get("value"))
+            if k == "CXXBoolLiteralExpr":
+                return 1 if n.get("value") else 0
+            if k == "BinaryOperator" and n.get("opcode") in ("==", "!="):
+                a, b = fold(ks[0]), fold(ks[1])
+                if a is None or b is None:
+                    return None
+                return int((a == b) == (n.get("opcode") == "=="))
+            if k == "ConditionalOperator":
+                c = fold(ks[0])
+                return None if c is None else fold(ks[1] if c else ks[2])
+            if k == "UnaryOperator" and n.get("opcode") == "!":
+                a = fold(ks[0])
+                return None if a is None else int(not a)
+            return None
+        if len(rets) == 1:
+            v = fold(ir.ekids(rets[0])[0])
+            if v == XTL["little_endian"]:
+                rep.holds("C20.endian", name, "single decision", where=d.where(rets[0]), detail="compile-time answer `%s` folds to little_endian on this little-endian target" % d.text(rets[0])[:60])
+                return
+            if v is not None:
+                rep.violates("C20.endian", name, "single decision", where=d.where(rets[0]),
+                             detail="in this configuration the function is `%s`, which folds to %s on this little-endian target: the reported byte order is not the machine's" % (
+                                 d.text(rets[0])[:70], {0: "big_endian", 1: "little_endian", 2: "mixed"}.get(v, v)))
+                return
         consts = [r for r in ir.walk_expr(ir.body(fn)) if r.get("kind") == "ReturnStmt" and ir.ekids(r)
                   and ir.strip(ir.ekids(r)[0]).get("kind") == "DeclRefExpr" and (ir.strip(ir.ekids(r)[0]).get("referencedDecl") or {}).get("kind") == "EnumConstantDecl"]
         if consts:
@@ -313,5 +362,12 @@ def run(tier):
     if not f2:
         raise cj.AnalysisBroken("endianness() not found when standard headers are included first")
     rule_endian(rep, d2, f2[0])
+    # and under the other language standards (feature-test macros such as __cpp_lib_endian select other code)
+    for std in ("gnu++14", "gnu++20"):
+        d3 = cj.dump('#include <version>\n#include "xtl/xplatform.hpp"\n' if std == "gnu++20" else '#include "xtl/xplatform.hpp"\n', "xtl::", std=std)
+        f3 = [f for f in ir.functions(d3) if f.get("name") == "endianness"]
+        if not f3:
+            raise cj.AnalysisBroken("endianness() not found under -std=%s" % std)
+        rule_endian(rep, d3, f3[0])
     rep.unit("3 functions: executable_path, prefix_path, endianness")
     return rep
